@@ -38,6 +38,30 @@ partial def parseTy : Sexp → Option Ty
   | list [atom "ann", t, mh] => do pure (.ann (← parseTy t) (← parseMH mh))
   | _ => none
 
+def strsSx (xs : List String) : Sexp := list (xs.map atom)
+
+def mhSx : MH → Sexp
+  | .intRange lo hi => list [atom "intRange", ofInt lo, ofInt hi]
+  | .intList xs => list [atom "intList", ofInts xs]
+  | .varRange xs => list [atom "varRange", strsSx xs]
+  | .listSize lo hi => list [atom "listSize", ofNat lo, ofNat hi]
+  | .strSize lo hi al => list [atom "strSize", ofNat lo, ofNat hi, strsSx al]
+  | .interval a b c => list [atom "interval", ofInt a, ofInt b, ofInt c]
+  | .floatRange => atom "floatRange"
+  | .floatList n => list [atom "floatList", ofNat n]
+  | .depIntRangeLo f hi => list [atom "depIntRangeLo", atom f, ofInt hi]
+  | .depIntRangeHi lo f => list [atom "depIntRangeHi", ofInt lo, atom f]
+  | .depListSize f => list [atom "depListSize", atom f]
+  | .depVarFrom f => list [atom "depVarFrom", atom f]
+
+partial def tySx : Ty → Sexp
+  | .int => atom "int" | .float => atom "float" | .str => atom "str" | .bool => atom "bool"
+  | .cls n => list [atom "cls", ofNat n]
+  | .list t => list [atom "list", tySx t]
+  | .tuple ts => list (atom "tuple" :: ts.map tySx)
+  | .union ts => list (atom "union" :: ts.map tySx)
+  | .ann t mh => list [atom "ann", tySx t, mhSx mh]
+
 def parseField : Sexp → Option (String × Ty)
   | list [atom n, t] => do pure (n, ← parseTy t)
   | _ => none
